@@ -213,7 +213,7 @@ def find_commitment_guards(ctx, R, pats):
     return out
 
 
-def proved_data_provenance(ctx):
+def proved_data_provenance(ctx, rule='C02.r5'):
     """r5: what is marked proved / requested for download / persisted derives from the VERIFIED response data (the headers that
     went through the PoW and MMR checks, the filtered blocks that went through the Merkle check) — never from the request, whose
     hashes also include the ones the peer reported missing."""
@@ -230,7 +230,7 @@ def proved_data_provenance(ctx):
             cs = calls(t.args[argi])
             from_resp = any(k.endswith('Reader::headers') or k.endswith('SendBlocksProofReader::headers') for k in cs)
             from_req = any(k.endswith('BlocksProofRequest::block_hashes') for k in cs)
-            ctx.ob('C02.r5', F.name, '%s derive from the verified response headers, not from the request' % what, from_resp and not from_req, at=t.span,
+            ctx.ob(rule, F.name, '%s derive from the verified response headers, not from the request' % what, from_resp and not from_req, at=t.span,
                    from_response_headers=from_resp, from_request=from_req)
     T = ctx.body(TP)
     tdu = DefUse(T)
@@ -238,4 +238,4 @@ def proved_data_provenance(ctx):
         cs = {o[1] for a in t.args[1:] for o in tdu.origins(a, stop_at_calls=False) if o[0] == 'call'}
         from_resp = any(k.endswith('Reader::filtered_blocks') for k in cs)
         from_req = any(k.endswith('TransactionsProofRequest::tx_hashes') for k in cs)
-        ctx.ob('C02.r5', T.name, 'the persisted transaction and header derive from the verified filtered blocks, not from the request', from_resp and not from_req, at=t.span)
+        ctx.ob(rule, T.name, 'the persisted transaction and header derive from the verified filtered blocks, not from the request', from_resp and not from_req, at=t.span)
